@@ -1,6 +1,6 @@
 (** C19 — Control commands round-trip their arguments and never wedge the socket.
     Only statements here; proofs are in Proofs/QuotedProofs.v and Proofs/CtlProofs.v. *)
-From KV Require Import Bytes Quoted QuotedProofs Ctl CtlProofs.
+From KV Require Import Bytes Quoted QuotedProofs Ctl CtlProofs CtlHosts CtlHostsProofs.
 Open Scope N_scope.
 
 (** Encoding every argument, joining with one space and splitting on the other side gives the
@@ -143,14 +143,14 @@ Proof. exact log_truncation_panics. Qed.
     in (connected and silent, half sent, waiting for a shutdown, ...) -- and changes no other
     connection. *)
 Theorem socket_never_wedged : forall (S : Type) (ps : plugins_chk S) (blocked : bytes -> S -> bool)
-    (env_step : N -> S -> S * bool) (st : lts_state S) (evs : list event) (k : N) (req : bytes),
+    (env_step : N -> S -> S * bool) (ack : S -> S) (st : lts_state S) (evs : list event) (k : N) (req : bytes),
   plugins_total ps ->
   conn_get k (l_conns st) = Some (PComplete req) ->
   Forall (fun ev => event_conn ev <> Some k) evs ->
-  let st1 := lrun ps blocked env_step st evs in
+  let st1 := lrun ps blocked env_step ack st evs in
   conn_get k (l_conns st1) = Some (PComplete req) /\
   (blocked req (l_env st1) = false ->
-   let st2 := lstep ps blocked env_step st1 (EHandle k) in
+   let st2 := lstep ps blocked env_step ack st1 (EHandle k) in
    (exists d, conn_get k (l_conns st2) = Some (PReplied d) /\ status_ok d) /\
    (forall j, j <> k -> conn_get j (l_conns st2) = conn_get j (l_conns st1))).
 Proof. exact never_wedged. Qed.
@@ -158,19 +158,21 @@ Proof. exact never_wedged. Qed.
 (** While the listener listens a new connection is accepted and read to its end whatever the
     others are doing, without effect on listener, state or other connections. *)
 Theorem accept_never_blocked : forall (S : Type) (ps : plugins_chk S) (blocked : bytes -> S -> bool)
-    (env_step : N -> S -> S * bool) (st : lts_state S) (k : N) (req : bytes),
+    (env_step : N -> S -> S * bool) (ack : S -> S) (st : lts_state S) (k : N) (req : bytes),
   l_listener st = Listening -> conn_get k (l_conns st) = None ->
-  let st1 := lrun ps blocked env_step st [EConnect k; ESend k req; EFin k] in
+  let st1 := lrun ps blocked env_step ack st [EConnect k; ESend k req; EFin k] in
   conn_get k (l_conns st1) = Some (PComplete req) /\ l_listener st1 = Listening /\ l_env st1 = l_env st /\
   (forall j, j <> k -> conn_get j (l_conns st1) = conn_get j (l_conns st)).
 Proof. exact accept_not_blocked. Qed.
 
-(** Nothing a client does (connect, send, half-close, stay silent) closes the listener or changes
-    the state: only a response with [close] or the environment does. *)
+(** Nothing a client does (connect, send, half-close, close the connection, stay silent) changes
+    the listener or the state: only a response with [close], the environment, or what happens to the
+    socket file does. *)
 Theorem clients_cannot_close : forall (S : Type) (ps : plugins_chk S) (blocked : bytes -> S -> bool)
-    (env_step : N -> S -> S * bool) (st : lts_state S) (ev : event),
-  (forall k, ev <> EHandle k) -> (forall e, ev <> EEnv e) ->
-  l_listener (lstep ps blocked env_step st ev) = l_listener st /\ l_env (lstep ps blocked env_step st ev) = l_env st.
+    (env_step : N -> S -> S * bool) (ack : S -> S) (st : lts_state S) (ev : event),
+  (forall k, ev <> EHandle k) -> event_conn ev <> None ->
+  l_listener (lstep ps blocked env_step ack st ev) = l_listener st /\
+  l_env (lstep ps blocked env_step ack st ev) = l_env st.
 Proof. exact client_events_keep_listener. Qed.
 
 (** Requests that are not UTF-8 or name no plugin: the same [error] reply in every state, no
@@ -185,6 +187,268 @@ Proof. exact rejected_reply_constant. Qed.
 (** The plugin table of the concurrent sessions satisfies the hypothesis. *)
 Theorem fixture_plugins_total : plugins_total fx_plugins_chk.
 Proof. exact fx_plugins_chk_total. Qed.
+
+
+(** ---- strengthening 2: the operator's side, real hosts, the socket file, accept errors, post_send ------------ *)
+
+(** [kvarnctl name a args...] against ANY plugin table, in any state: the plugin registered under
+    [name] is called with exactly the arguments the operator typed, whatever characters they
+    contain (spaces, quotes, backslashes, empty strings, any Unicode scalar value), and its response
+    comes back framed.  [ping_echo] and the [clear] theorems below are instances. *)
+Theorem plugin_sees_typed_arguments : forall (S : Type) (ps : plugins S) (name : str) (p : plugin S)
+    (a : str) (args : list str) (s : S),
+  lookup_plugin name ps = Some p ->
+  all_scalar name = true -> forallb all_scalar (a :: args) = true ->
+  handle ps (utf8_encode (client_message name (a :: args))) s
+  = (let (response, s') := p (a :: args) s in
+     let (data, prepend) := match pr_kind response with
+                            | KError data => (data, B "error")
+                            | KOk data => (data, B "ok")
+                            end in
+     ({| hr_data := frame prepend data; hr_close := pr_close response |}, s')).
+Proof. exact plugin_gets_typed_args. Qed.
+
+(** [kvarnctl clear file <host> <path>] on an instance with any ports and hosts: afterwards every
+    port's host collection is what [Collection::clear_file(host, path)] -- with the host and the path
+    exactly as typed -- makes of it; the reply is [ok] iff some port found the host and had the file
+    cached, [error] otherwise; the socket stays open. *)
+Theorem clear_file_sees_typed_target : forall (dbg : str -> str) (ps : plugins (list collection))
+    (host path : str) (ports : list collection),
+  lookup_plugin (B "clear") ps = Some (clear_hosts_plugin dbg) ->
+  all_scalar host = true -> all_scalar path = true ->
+  let res := handle ps (utf8_encode (client_message (B "clear") [(B "file" : str); host; path])) ports in
+  let found := existsb (fun c => fst (fst (clear_file_coll host path c))) ports in
+  let cleared := existsb (fun c => snd (fst (clear_file_coll host path c))) ports in
+  snd res = map (fun c => snd (clear_file_coll host path c)) ports /\
+  hr_close (fst res) = false /\
+  starts_with (B "ok") (hr_data (fst res)) = found && cleared /\
+  starts_with (B "error") (hr_data (fst res)) = negb (found && cleared).
+Proof. exact (fun dbg ps host path ports H => clear_file_typed dbg ps H host path ports). Qed.
+
+(** ... and [Collection::clear_file] removes exactly the typed key from the file cache of the
+    designated host ([""] / ["default"]: the default host; else the host of that name) and nothing
+    else: [file_cached] afterwards, for EVERY host name and EVERY key. *)
+Theorem clear_file_removes_exactly : forall (host path : str) (c : collection) (name key : str),
+  file_cached (snd (clear_file_coll host path c)) name key
+  = file_cached c name key &&
+    negb (match file_target c host with Some n => beq n name && beq path key | None => false end).
+Proof. exact clear_file_exact. Qed.
+
+(** [kvarnctl clear response <host> <response>]: the response is parsed by http's path-and-query
+    scanner ([uri_parts], transcribed and run against the real one); an invalid one is an [error]
+    without effect; otherwise every port's collection is what [clear_page(host, uri)] makes of it. *)
+Theorem clear_response_sees_typed_target : forall (dbg : str -> str) (ps : plugins (list collection))
+    (host response : str) (ports : list collection),
+  lookup_plugin (B "clear") ps = Some (clear_hosts_plugin dbg) ->
+  all_scalar host = true -> all_scalar response = true ->
+  let res := handle ps (utf8_encode (client_message (B "clear") [(B "response" : str); host; response])) ports in
+  match uri_parts (utf8_encode response) with
+  | None => snd res = ports /\ hr_close (fst res) = false /\ starts_with (B "error") (hr_data (fst res)) = true
+  | Some (p, q) =>
+      let query := match q with Some q' => q' | None => [] end in
+      let found := existsb (fun c => fst (fst (clear_page_coll host p query c))) ports in
+      let cleared := existsb (fun c => snd (fst (clear_page_coll host p query c))) ports in
+      snd res = map (fun c => snd (clear_page_coll host p query c)) ports /\
+      hr_close (fst res) = false /\
+      starts_with (B "ok") (hr_data (fst res)) = found && cleared /\
+      starts_with (B "error") (hr_data (fst res)) = negb (found && cleared)
+  end.
+Proof. exact (fun dbg ps host response ports H => clear_response_typed dbg ps H host response ports). Qed.
+
+(** [clear_page] removes exactly the two keys of the typed path (with and without its query) from the
+    response cache of the designated host, and nothing else. *)
+Theorem clear_response_removes_exactly : forall (host : str) (p q : bytes) (c : collection) (name : str) (k : rkey),
+  page_cached (snd (clear_page_coll host p q c)) name k
+  = page_cached c name k &&
+    negb (match page_target c host with
+          | Some n => beq n name && (rkey_eqb (RPathQuery p q) k || rkey_eqb (RPath p) k)
+          | None => false
+          end).
+Proof. exact clear_page_exact. Qed.
+
+(** A host that is named (neither [""] nor ["default"]) designates the host of exactly that name. *)
+Theorem named_host_is_the_typed_one : forall (c : collection) (host n : str),
+  is_empty host || beq host (B "default") = false ->
+  (file_target c host = Some n \/ page_target c host = Some n) -> n = host.
+Proof. exact named_target_is_typed. Qed.
+
+(** The instance without ports of the sequential sessions: [clear_plugin] (above) is this plugin on the
+    empty list of ports. *)
+Theorem clear_without_ports : forall (dbg : str -> str) (args : list str),
+  fst (clear_hosts_plugin dbg args [])
+  = fst (clear_plugin (fun r => match uri_parts (utf8_encode r) with Some _ => true | None => false end) args tt).
+Proof. exact clear_portless. Qed.
+
+(** The real [kvarnctl] ([request] and the end of [main], ctl/src/main.rs): [kvarnctl ping args...]
+    prints the arguments joined by one space and a newline and exits with 0. *)
+Theorem kvarnctl_ping_prints : forall (S : Type) (ps : plugins S) (args : list str) (s : S),
+  lookup_plugin (B "ping") ps = Some ping_plugin ->
+  forallb all_scalar args = true ->
+  client_outcome (Data (hr_data (fst (handle ps (utf8_encode (client_message (B "ping") args)) s))))
+  = (0, utf8_encode (join_sp args) ++ [c_newline]).
+Proof. exact kvarnctl_ping. Qed.
+
+(** For every request and every plugin table: kvarnctl's exit status is 6 when the reply is not UTF-8,
+    else 0 exactly for a plugin's [Ok] and 1 (and nothing printed) for everything else -- not UTF-8
+    request, unknown command, plugin error. *)
+Theorem kvarnctl_exit_status : forall (S : Type) (ps : plugins S) (req : bytes) (s : S),
+  let d := hr_data (fst (handle ps req s)) in
+  (utf8_decode d = None -> client_outcome (Data d) = (6, [])) /\
+  (utf8_decode d <> None ->
+     (classify S ps req s = CPluginOk -> fst (client_outcome (Data d)) = 0) /\
+     (classify S ps req s <> CPluginOk -> client_outcome (Data d) = (1, []))).
+Proof. exact kvarnctl_exit. Qed.
+
+(** The socket FILE is removed while the instance runs (a tmp cleaner): the listener notices, nobody
+    can connect meanwhile, and after the re-listen the state is exactly what it was -- every pending
+    connection, the plugins' state, and a listener that accepts ([accept_never_blocked]). *)
+Theorem socket_survives_unlink : forall (S : Type) (ps : plugins_chk S) (blocked : bytes -> S -> bool)
+    (env_step : N -> S -> S * bool) (ack : S -> S) (st : lts_state S),
+  l_listener st = Listening ->
+  let st1 := lstep ps blocked env_step ack st EUnlink in
+  l_listener st1 = Unlinked /\ l_env st1 = l_env st /\ l_conns st1 = l_conns st /\
+  lstep ps blocked env_step ack st1 ERelisten = st.
+Proof. exact unlink_relisten. Qed.
+
+Theorem unlinked_refuses_then_accepts_again : forall (S : Type) (ps : plugins_chk S) (blocked : bytes -> S -> bool)
+    (env_step : N -> S -> S * bool) (ack : S -> S) (st : lts_state S) (k : N),
+  l_listener st = Unlinked -> conn_get k (l_conns st) = None ->
+  conn_get k (l_conns (lstep ps blocked env_step ack st (EConnect k))) = Some PRefused /\
+  l_listener (lstep ps blocked env_step ack st ERelisten) = Listening /\
+  l_env (lstep ps blocked env_step ack st ERelisten) = l_env st /\
+  l_conns (lstep ps blocked env_step ack st ERelisten) = l_conns st.
+Proof. exact unlinked_refuses_then_accepts. Qed.
+
+(** Once a response asked to close (or the instance shuts down) nobody listens again, whatever
+    happens afterwards -- in particular a re-listen that was under way does not revive the socket
+    (the [true] message is not lost in the [try_recv] loop). *)
+Theorem closed_listener_is_final : forall (S : Type) (ps : plugins_chk S) (blocked : bytes -> S -> bool)
+    (env_step : N -> S -> S * bool) (ack : S -> S) (evs : list event) (st : lts_state S),
+  l_listener st = Closed -> l_listener (lrun ps blocked env_step ack st evs) = Closed.
+Proof. exact closed_final. Qed.
+
+(** A failed [accept()] (EMFILE: the process is out of file descriptors) changes nothing ... *)
+Theorem accept_error_is_harmless : forall (S : Type) (ps : plugins_chk S) (blocked : bytes -> S -> bool)
+    (env_step : N -> S -> S * bool) (ack : S -> S) (st : lts_state S),
+  lstep ps blocked env_step ack st EAcceptErr = st.
+Proof. exact accept_error_harmless. Qed.
+
+(** ... whereas in the code before the repair ([lstep_v0]) one failed [accept()] ended the control
+    socket for the rest of the process, without any closing request: the statement "the socket still
+    answers the next request until a command that closes it" was false (reproduced on the real code:
+    known-findings.txt, fixed). *)
+Theorem accept_error_ended_the_socket_refuted :
+  exists (st : lts_state fx_state), l_listener st = Listening /\ l_conns st = [] /\
+    forall evs, l_listener (lrun_v0 fx_plugins_chk fx_blocked fx_env_step fx_ack
+                              (lstep_v0 fx_plugins_chk fx_blocked fx_env_step fx_ack st EAcceptErr) evs) = Closed.
+Proof.
+  exists (lts_init fx_init). split; [reflexivity|]. split; [reflexivity|].
+  intros evs. apply accept_error_v0_final. reflexivity.
+Qed.
+
+(** The task of a connection whose client has gone away (it closed the connection before the reply
+    could be written) does what it does for a client that still reads: the plugin's effect, the
+    [close] message, and the [post_send] callback. *)
+Theorem post_send_runs_without_client : forall (S : Type) (ps : plugins_chk S) (blocked : bytes -> S -> bool)
+    (env_step : N -> S -> S * bool) (ack : S -> S) (st : lts_state S) (k : N) (req : bytes)
+    (hr : handler_response) (s' : S),
+  conn_get k (l_conns st) = Some (PGone req false) ->
+  blocked req (l_env st) = false ->
+  handle_chk ps req (l_env st) = Ok (hr, s') ->
+  let st1 := lstep ps blocked env_step ack st (EHandle k) in
+  l_env st1 = (if response_ack ps req (l_env st) then ack s' else s') /\
+  l_listener st1 = (if hr_close hr then Closed else l_listener st) /\
+  conn_get k (l_conns st1) = Some (PGone req true) /\
+  l_env st1 = l_env (run_task ps blocked ack true st k req true) /\
+  l_listener st1 = l_listener (run_task ps blocked ack true st k req true).
+Proof. exact task_without_client. Qed.
+
+(** [kvarnctl shutdown] interrupted after it sent the request: the instance still finishes shutting
+    down ([Manager::wait] resolves), in every state in which no acknowledgement was due before. *)
+Theorem shutdown_without_client_finishes : forall (st : lts_state fx_state) (k : N),
+  conn_get k (l_conns st) = Some (PGone (B "shutdown") false) ->
+  fx_acks (l_env st) = 0 ->
+  fx_finished (l_env (fx_lstep st (EHandle k))) = true /\ l_listener (fx_lstep st (EHandle k)) = Closed.
+Proof. exact fx_shutdown_without_client. Qed.
+
+(** Before the repair ([lstep_v0]: a failed write ended the task before [post_send]) that history left
+    the instance shut down -- not listening, control socket closed -- but never finished, whatever
+    happened afterwards: the process did not exit (reproduced on the real code, fixed). *)
+Theorem post_send_skipped_refuted :
+  exists evs, let st := lrun_v0 fx_plugins_chk fx_blocked fx_env_step fx_ack (lts_init fx_init) evs in
+    fx_shutdown (l_env st) = true /\
+    forall evs', fx_finished (l_env (lrun_v0 fx_plugins_chk fx_blocked fx_env_step fx_ack st evs')) = false.
+Proof. exact fx_shutdown_hangs_v0. Qed.
+
+(** The built-in [wait] before its repair ([fx_plugins_chk_v0]) was NOT total: a [wait] request accepted
+    before a shutdown and handled after it made the plugin panic ([sender.send(()).unwrap()] on a closed
+    channel), the connection was dropped with an empty reply -- neither [ok] nor [error] (reproduced on
+    the real code, fixed); with the repaired plugin the same history ends with [ok]. *)
+Theorem wait_after_shutdown_refuted :
+  let evs := [EConnect 1; EConnect 2; ESend 2 (B "shutdown"); EFin 2; EHandle 2; ESend 1 (B "wait"); EFin 1; EHandle 1] in
+  conn_get 1 (l_conns (lrun fx_plugins_chk_v0 fx_blocked fx_env_step fx_ack (lts_init fx_init) evs)) = Some (PReplied []) /\
+  conn_get 1 (l_conns (lrun fx_plugins_chk fx_blocked fx_env_step fx_ack (lts_init fx_init) evs)) = Some (PReplied (B "ok")) /\
+  ~ plugins_total fx_plugins_chk_v0.
+Proof. exact fx_wait_after_shutdown_v0. Qed.
+
+(** Non-vacuity of the second strengthening. *)
+Definition ex_coll : collection :=
+  {| c_hosts := [ {| h_name := B "my host"; h_files := Some [B "/a b"; B "x"]; h_pages := Some [RPath (B "/p"); RPathQuery (B "/q") (B "x=1")] |};
+                  {| h_name := B "other"; h_files := Some [B "/a b"]; h_pages := Some [RPath (B "/p")] |} ];
+     c_default := Some (B "other") |}.
+Example ex_clear_file :
+  lookup_plugin (B "clear") hx_plugins = Some (clear_hosts_plugin debug_str) /\
+  all_scalar (B "my host") = true /\ all_scalar (B "/a b") = true /\
+  handle hx_plugins (utf8_encode (client_message (B "clear") [B "file"; B "my host"; B "/a b"])) [ex_coll]
+  = ({| hr_data := B "ok cleared ""/a b"" from ""my host"""; hr_close := false |},
+     [snd (clear_file_coll (B "my host") (B "/a b") ex_coll)]) /\
+  file_cached (snd (clear_file_coll (B "my host") (B "/a b") ex_coll)) (B "my host") (B "/a b") = false /\
+  file_cached (snd (clear_file_coll (B "my host") (B "/a b") ex_coll)) (B "my host") (B "x") = true /\
+  file_cached (snd (clear_file_coll (B "my host") (B "/a b") ex_coll)) (B "other") (B "/a b") = true /\
+  file_target ex_coll (B "my host") = Some (B "my host") /\ file_target ex_coll [] = Some (B "other") /\
+  file_target ex_coll (B "nobody") = None.
+Proof. repeat split; vm_compute; reflexivity. Qed.
+Example ex_clear_response :
+  uri_parts (B "/q?x=1#frag") = Some (B "/q", Some (B "x=1")) /\ uri_parts (B "/a b") = None /\
+  uri_parts (B "?x") = Some (B "/", Some (B "x")) /\ uri_parts [] = Some ([], None) /\
+  fst (fst (clear_page_coll (B "default") (B "/p") [] ex_coll)) = true /\
+  page_cached (snd (clear_page_coll (B "default") (B "/p") [] ex_coll)) (B "other") (RPath (B "/p")) = false /\
+  page_cached (snd (clear_page_coll (B "default") (B "/p") [] ex_coll)) (B "my host") (RPath (B "/p")) = true /\
+  page_cached (snd (clear_page_coll (B "my host") (B "/q") (B "x=1") ex_coll)) (B "my host") (RPathQuery (B "/q") (B "x=1")) = false.
+Proof. repeat split; vm_compute; reflexivity. Qed.
+Example ex_kvarnctl :
+  client_outcome (Data (B "ok ""a b"" """" c")) = (0, B "a b  c" ++ [10]) /\ client_outcome (Data (B "error 'x'")) = (1, []) /\
+  client_outcome (Data [111; 107; 32; 255]) = (6, []) /\ client_outcome (Data []) = (5, []) /\
+  client_outcome (Data (B "okay")) = (4, []) /\ client_outcome NoAnswer = (3, []) /\
+  run_binary (XL [XL [x_str (B "ping"); XL [x_str (B "a b"); x_str []]]; XL [x_str (B "nope"); XL []]])
+  = XL [XL [XN 0; XB (B "a b " ++ [10])]; XL [XN 1; XB []]].
+Proof. repeat split; vm_compute; reflexivity. Qed.
+Example ex_unlink :
+  let st := lrun fx_plugins_chk fx_blocked fx_env_step fx_ack (lts_init fx_init) [EConnect 1; ESend 1 (B "ping a"); EUnlink] in
+  l_listener st = Unlinked /\
+  conn_get 2 (l_conns (fx_lstep st (EConnect 2))) = Some PRefused /\
+  conn_get 1 (l_conns (lrun fx_plugins_chk fx_blocked fx_env_step fx_ack st [ERelisten; EFin 1; EHandle 1; EConnect 3]))
+  = Some (PReplied (B "ok ""a""")) /\
+  conn_get 3 (l_conns (lrun fx_plugins_chk fx_blocked fx_env_step fx_ack st [ERelisten; EFin 1; EHandle 1; EConnect 3])) = Some (POpen []).
+Proof. repeat split; vm_compute; reflexivity. Qed.
+Example ex_post_send :
+  let st := lrun fx_plugins_chk fx_blocked fx_env_step fx_ack (lts_init fx_init) [EConnect 1; ESend 1 (B "shutdown"); EDrop 1] in
+  conn_get 1 (l_conns st) = Some (PGone (B "shutdown") false) /\ fx_acks (l_env st) = 0 /\
+  fx_blocked (B "shutdown") (l_env st) = false /\
+  response_ack fx_plugins_chk (B "shutdown") (l_env st) = true /\
+  response_ack fx_plugins_chk (B "shutdown no-wait") (l_env st) = false /\
+  fx_finished (l_env (fx_lstep st (EHandle 1))) = true /\
+  fx_finished (l_env (lstep_v0 fx_plugins_chk fx_blocked fx_env_step fx_ack st (EHandle 1))) = false /\
+  run_conc (XL [XL [XN 0; XN 2]; XL [XN 1; XN 2; XB (B "shutdown")]; XL [XN 6; XN 2]; XL [XN 14; XN 0]; XL [XN 7; XN 3; XB (B "ping")]])
+  = XL [XL [XN 0; XL [XN 8]]; XL [XN 3; XL [XN 1]]] /\
+  run_reload (XL [XL [XN 7; XN 1; XB (B "reload x")]; XL [XN 7; XN 2; XB (B "reload")]])
+  = XL [XL [XN 1; XL [XN 0; XB (B "error no arguments were expected")]];
+        XL [XN 2; XL [XN 0; XB (B "ok successfully reloaded Kvarn")]]; XL [XN 99; XN 1]].
+Proof. repeat split; vm_compute; reflexivity. Qed.
+Example ex_typed_args :
+  lookup_plugin (B "t-args") fx_plugins <> None /\ all_scalar (B "t-args") = true /\
+  forallb all_scalar [[]; B "a ""b"" \c"; [8364]] = true.
+Proof. split; [vm_compute; discriminate|split; vm_compute; reflexivity]. Qed.
 
 (** Non-vacuity: concrete instances. *)
 Example ex_slice_straddle :
@@ -201,14 +465,14 @@ Proof. vm_compute. reflexivity. Qed.
 (** connection 1 waits for the shutdown, 2 is connected and silent, 3 has sent half a request:
     connection 4's [ping] is answered, and so is an unknown command; then 1 at the shutdown *)
 Example ex_never_wedged :
-  let st := lrun fx_plugins_chk fx_blocked fx_env_step (lts_init fx_init)
+  let st := lrun fx_plugins_chk fx_blocked fx_env_step fx_ack (lts_init fx_init)
               [EConnect 1; ESend 1 (B "wait"); EFin 1; EHandle 1; EConnect 2; EConnect 3; ESend 3 (B "pi");
                EConnect 4; ESend 4 (B "ping x"); EFin 4] in
   conn_get 1 (l_conns st) = Some (PComplete (B "wait")) /\ fx_blocked (B "wait") (l_env st) = true /\
   conn_get 4 (l_conns st) = Some (PComplete (B "ping x")) /\ fx_blocked (B "ping x") (l_env st) = false /\
   conn_get 4 (l_conns (fx_lstep st (EHandle 4))) = Some (PReplied (B "ok ""x""")) /\
   l_listener st = Listening /\
-  conn_get 1 (l_conns (lrun fx_plugins_chk fx_blocked fx_env_step st [EEnv 0; EHandle 1])) = Some (PReplied (B "ok")).
+  conn_get 1 (l_conns (lrun fx_plugins_chk fx_blocked fx_env_step fx_ack st [EEnv 0; EHandle 1])) = Some (PReplied (B "ok")).
 Proof. repeat split; vm_compute; reflexivity. Qed.
 Example ex_conc :
   run_conc (XL [XL [XN 8; XN 1; XB (B "wait")]; XL [XN 7; XN 2; XB (B "ping a")]; XL [XN 7; XN 3; XB (B "nope")];
